@@ -204,7 +204,7 @@ Theorem C16_start_cap0 : forall plc s c0,
     EnableStreaming ::
     match h_tl c0 with
     | Some _ => [HostTL true]
-    | None => SetTLParamsLocked true :: (if n_copy c0 then [CopyTL true] else [])
+    | None => tl_read_effs c0 ++ SetTLParamsLocked true :: (if n_copy c0 then [CopyTL true] else [])
     end ++ [AcqStart] /\
   loop_running (r_cam (run_call true (CStart 0) plc s)) = false.
 Proof. exact (start_cap0 true). Qed.
@@ -214,7 +214,7 @@ Print Assumptions C16_start_cap0.
 Theorem C16_session_example :
   let rs := run true no_failure [COpen; CLoad xml_good; CStart 3; CParams; CStop; CClose] in
   trace_of rs =
-    [CtrlOpen; StrmOpen; GenApiFetch; LoadCtxt true true true false false false;
+    [CtrlOpen; StrmOpen; GenApiFetch; LoadCtxt true true true false false false false;
      EnableStreaming; SetTLParamsLocked true; AcqStart; LoopStart;
      LoopStop; AcqStop; SetTLParamsLocked false; DisableStreaming;
      CtrlClose; StrmClose; ClearCache] /\
@@ -226,7 +226,7 @@ Print Assumptions C16_session_example.
 Theorem C16_failure_example :
   let rs := run true (plan_of [(2%nat, 2%nat, 1)]) [COpen; CLoad xml_good; CStart 3] in
   map r_res rs = [Ok (-1); Ok (-1); Err (E_GENAPI_DEVICE + 1)] /\
-  trace_of rs = [CtrlOpen; StrmOpen; GenApiFetch; LoadCtxt true true true false false false;
+  trace_of rs = [CtrlOpen; StrmOpen; GenApiFetch; LoadCtxt true true true false false false false;
                  EnableStreaming; SetTLParamsLocked true] /\
   loop_running (final rs) = false.
 Proof. exact failure_example. Qed.
@@ -312,8 +312,9 @@ Theorem C16_copy_failure_stops : forall pl cs r b cls,
   r_res r = Err (E_GENAPI_DEVICE + cls) /\
   r_atts r = r_effs r ++ [CopyTL b] /\
   loop_running (r_cam r) = false /\
-  ((b = true /\ r_effs r = [EnableStreaming; SetTLParamsLocked true]) \/
-   (b = false /\ r_effs r = [LoopStop; AcqStop; SetTLParamsLocked false])) /\
+  (exists rb, (rb = [] \/ rb = [GenApiRead]) /\
+     ((b = true /\ r_effs r = EnableStreaming :: rb ++ [SetTLParamsLocked true]) \/
+      (b = false /\ r_effs r = [LoopStop; AcqStop] ++ rb ++ [SetTLParamsLocked false]))) /\
   exists k j, pl k j = Some cls /\ r_nops r = S j.
 Proof. exact (copy_failure_stops true). Qed.
 Print Assumptions C16_copy_failure_stops.
@@ -324,7 +325,7 @@ Print Assumptions C16_copy_failure_stops.
 Theorem C16_copy_example :
   let cs := [COpen; CLoad xml_copy; CStart 3; CStop; CClose] in
   trace_of (run true no_failure cs) =
-    [CtrlOpen; StrmOpen; GenApiFetch; LoadCtxt true true true true false false;
+    [CtrlOpen; StrmOpen; GenApiFetch; LoadCtxt true true true true false false false;
      EnableStreaming; SetTLParamsLocked true; CopyTL true; AcqStart; LoopStart;
      LoopStop; AcqStop; SetTLParamsLocked false; CopyTL false; DisableStreaming;
      CtrlClose; StrmClose; ClearCache] /\
@@ -372,7 +373,7 @@ Print Assumptions C16_close_clean_reg.
 Theorem C16_host_example :
   let rs := run true no_failure [COpen; CLoad xml_host; CStart 3; CParams; CStop; CParams; CClose] in
   trace_of rs =
-    [CtrlOpen; StrmOpen; GenApiFetch; LoadCtxt true true true false true true;
+    [CtrlOpen; StrmOpen; GenApiFetch; LoadCtxt true true true false true true false;
      EnableStreaming; HostTL true; AcqStart; LoopStart;
      LoopStop; AcqStop; HostTL false; DisableStreaming;
      CtrlClose; StrmClose; ClearCache] /\
@@ -465,7 +466,7 @@ Theorem C16_start_of_source : forall cap plc s c0,
   r_atts r = EnableStreaming ::
              match h_tl c0 with
              | Some _ => []
-             | None => SetTLParamsLocked true :: (if n_copy c0 then [CopyTL true] else [])
+             | None => tl_read_effs c0 ++ SetTLParamsLocked true :: (if n_copy c0 then [CopyTL true] else [])
              end ++ [AcqStart; LoopStart] /\
   filter is_access (r_effs r) = r_atts r /\
   loop_running (r_cam r) = true.
@@ -480,7 +481,7 @@ Theorem C16_stop_of_source : forall plc s c0,
   r_atts r = [LoopStop; AcqStop] ++
              match h_tl c0 with
              | Some _ => []
-             | None => SetTLParamsLocked false :: (if n_copy c0 then [CopyTL false] else [])
+             | None => tl_read_effs c0 ++ SetTLParamsLocked false :: (if n_copy c0 then [CopyTL false] else [])
              end ++ [DisableStreaming] /\
   filter is_access (r_effs r) = r_atts r /\
   loop_running (r_cam r) = false.
@@ -492,7 +493,7 @@ Print Assumptions C16_stop_of_source.
 Theorem C16_source_example :
   let rs := src_run no_failure [COpen; CLoad xml_good; CStart 3; CParams; CStop; CClose] in
   trace_of rs =
-    [CtrlOpen; StrmOpen; GenApiFetch; LoadCtxt true true true false false false;
+    [CtrlOpen; StrmOpen; GenApiFetch; LoadCtxt true true true false false false false;
      EnableStreaming; SetTLParamsLocked true; AcqStart; LoopStart;
      LoopStop; AcqStop; SetTLParamsLocked false; DisableStreaming;
      CtrlClose; StrmClose; ClearCache] /\
@@ -502,3 +503,36 @@ Theorem C16_source_example :
   map r_res (src_run no_failure [COpen; CLoad xml_good; CStart 0]) = [Ok (-1); Ok (-1); Panic].
 Proof. exact source_example. Qed.
 Print Assumptions C16_source_example.
+
+(* ---- TLParamsLocked declared as a <MaskedIntReg>; second handles of the context ---------------- *)
+
+(* Non-vacuity: with TLParamsLocked a <MaskedIntReg> its set_value is a read-modify-write: the register is
+   read back (one more fallible device access, GenApiRead) before the first write, served from the cache
+   before the second; when that read fails start_streaming returns its error having done EnableStreaming
+   only -- no write, no AcquisitionStart, no loop (C16_failure_stops / C16_failure_session / C16_access_once
+   cover this access as every other). *)
+Theorem C16_masked_example :
+  let cs := [COpen; CLoad xml_mask; CStart 3; CStop; CClose] in
+  trace_of (run true no_failure cs) =
+    [CtrlOpen; StrmOpen; GenApiFetch; LoadCtxt true true true false false false true;
+     EnableStreaming; GenApiRead; SetTLParamsLocked true; AcqStart; LoopStart;
+     LoopStop; AcqStop; SetTLParamsLocked false; DisableStreaming;
+     CtrlClose; StrmClose; ClearCache] /\
+  clean (final (run true no_failure cs)) /\
+  (let rs := run true (plan_of [(2%nat, 1%nat, 2)]) cs in
+   map r_res rs = [Ok (-1); Ok (-1); Err (E_GENAPI_DEVICE + 2); Ok (-1); Ok (-1)] /\
+   map r_atts rs = [[CtrlOpen; StrmOpen]; [GenApiFetch]; [EnableStreaming; GenApiRead]; []; [CtrlClose; StrmClose]] /\
+   nth 2 (map r_effs rs) [] = [EnableStreaming] /\
+   tl_feat (final rs) = false /\ loop_running (final rs) = false).
+Proof. exact masked_example. Qed.
+Print Assumptions C16_masked_example.
+
+(* The application taking ([CHold true]) or dropping ([CHold false]) a second handle of the camera's context
+   (a clone of a sharable context) is no step of the camera: nothing is attempted and the state is unchanged;
+   so C16_close_clean and C16_cache_dropped_on_close -- which hold for every session, hence for sessions
+   containing such steps anywhere -- say that close drops the cached values whoever else holds the context. *)
+Theorem C16_hold_call : forall b plc s,
+  run_call true (CHold b) plc s =
+  {| r_res := Ok (-1); r_effs := []; r_nops := 0; r_atts := []; r_failed := None; r_cam := s |}.
+Proof. exact (hold_call true). Qed.
+Print Assumptions C16_hold_call.
